@@ -2,7 +2,9 @@
 # Everything that tests the machinery itself, in one go (hours): seeded breaking changes must still be
 # caught, behaviour-preserving refactorings must stay silent, hand-written mutants must be caught.
 cd "$(dirname "$0")/.."
-echo "=== seeded recheck $(date)"; /venv/bin/python tools/seeded.py recheck; echo "seeded rc=$?"
+# order: what guards against false alarms first
 echo "=== benign recheck $(date)"; /venv/bin/python tools/seeded.py recheck-benign; echo "benign rc=$?"
+if [ -n "$THOROUGH_PCT" ]; then echo "=== thorough (${THOROUGH_PCT}% of the tier) $(date)"; tools/thorough_all.sh '' 4242 $THOROUGH_PCT; fi
 echo "=== mutants $(date)"; /venv/bin/python -B -m dsim.selftest.mutants; echo "mutants rc=$?"
+echo "=== seeded recheck $(date)"; /venv/bin/python tools/seeded.py recheck; echo "seeded rc=$?"
 echo "=== done $(date)"
